@@ -32,7 +32,7 @@ var interpretedPkgs = map[string]bool{
 	modPath: true, modPath + "/ast": true, modPath + "/parse": true, modPath + "/pm": true,
 	"strings": true, "strconv": true, "unicode": true, "unicode/utf8": true, "errors": true,
 	"sort": true, "math": true, "math/bits": true, "bytes": true, "io": true, "bufio": true,
-	"context": true, "slices": true, "fmt": true, "internal/fmtsort": true,
+	"context": true, "slices": true, "fmt": true, "internal/fmtsort": true, "time": true,
 }
 
 var noInit = map[string]bool{"errors": true, "context": true}
